@@ -42,7 +42,37 @@ def main(seed, tier):
     log("selftest: %d specs executed twice in different zygotes, %d mismatches, %.0f s" % (total, bad, time.monotonic() - t0))
     tb, tt = threaded(seed, n, corp, one)
     one.close()
-    return 2 if bad or tb or not total else 0
+    gb = generation(seed)
+    return 2 if bad or tb or gb or not total else 0
+
+
+def generation(seed, n=60):
+    """spec generation is a pure function of (VERIF_SEED, property, run index, corpus): generated again in fresh
+    interpreters under other hash seeds, the specs must be byte-identical"""
+    import hashlib
+    import json
+    import os
+    import subprocess
+    import sys
+    code = ("import sys, json, hashlib; sys.path.insert(0, %r)\n"
+            "from sim import gen\nfrom sim.main import hash_seed_list\n"
+            "corp = gen.Corpus(%r); hs = hash_seed_list(%d, 4); h = hashlib.sha256()\n"
+            "for fn in (gen.c10_random_spec, gen.c11_spec, gen.c14_spec):\n"
+            "    for k in range(%d):\n        h.update(json.dumps(fn(%d, k, corp, hs), sort_keys=True).encode())\n"
+            "for k in range(4):\n    h.update(json.dumps(gen.c11_spec(%d, k, corp, hs, soak=True), sort_keys=True).encode())\n"
+            "h.update(json.dumps(gen.c10_sweep_specs(corp, {}), sort_keys=True).encode())\nprint(h.hexdigest())\n"
+            % (os.path.dirname(os.path.dirname(os.path.abspath(__file__))), REPO, seed, n, seed, seed))
+    digests = {}
+    for hs in ("0", "1", "4242", "random"):
+        env = dict(os.environ, PYTHONHASHSEED=hs)
+        r = subprocess.run([sys.executable, "-c", code], env=env, capture_output=True, text=True)
+        digests[hs] = r.stdout.strip() or ("error: " + r.stderr[-300:])
+    ok = len(set(digests.values())) == 1 and not any(v.startswith("error") for v in digests.values())
+    log("selftest(generation): %d specs per property generated under PYTHONHASHSEED 0, 1, 4242, random: %s"
+        % (n, "identical" if ok else "DIFFER %r" % digests))
+    if not ok:
+        log("HARNESS-ERROR spec generation depends on the interpreter's hash seed")
+    return 0 if ok else 1
 
 
 THREADED_SUTS = [("seeded/c14b-request-watchdog", "C14"), ("seeded/c14a-compile-watchdog", "C14"), ("seeded/c10a-drip-timeout", "C10")]
